@@ -141,6 +141,14 @@ func runGuarded(p *propDef, c *Ctx, prop string) {
 	defer func() {
 		if e := recover(); e != nil {
 			if ie, ok := e.(infraError); ok {
+				if strings.HasPrefix(ie.msg, "UNRESOLVED anchor") {
+					// the code a rule is anchored in is gone (removed, renamed or merged into its
+					// callers): the property cannot be decided on this tree, which is a failure of
+					// the check for this tree, reported as such rather than as a tool error
+					c.R.Check(prop+".undecided", "anchor resolved: "+strings.TrimPrefix(ie.msg, "UNRESOLVED anchor"), "-", false,
+						"a function, variable or package the rules of this property are anchored in no longer exists ("+ie.msg+"); the rules after it were not evaluated")
+					return
+				}
 				panic(ie)
 			}
 			st := string(debug.Stack())
